@@ -81,7 +81,10 @@ def _events(args):
         for step in range(rng.randint(1, 3)):  # sequences of mode changes between evaluations
             mode = rng.choice(["error", "warning", "silent", "silent"])
             config["EVAL_UNSEEN_CATEGORIES"] = mode
-            new, newabs, touched = make_new_world(rng, w, rng.choice([0.0, 0.3, 0.6]))
+            if step > 0 and rng.random() < 0.4:
+                pass   # the very same frame object again, under the mode now in force
+            else:
+                new, newabs, touched = make_new_world(rng, w, rng.choice([0.0, 0.3, 0.6]))
             for part in ("common", "group"):
                 mat = getattr(dm, part)
                 if mat is None:
